@@ -845,6 +845,9 @@ func runC10(c *Ctx) {
 
 	// ---------- R7 EOF is recognised inside os's wrappers wherever it decides about data ----------
 	checkEOFRecognition(c, "R7")
+
+	// ---------- R8 Filecmd only sees methods it is documented for ----------
+	checkFilecmdMethodNames(c, "R8")
 }
 
 func ptrNamed(p *Program, name string) types.Type {
@@ -1125,4 +1128,53 @@ func checkEOFRecognition(c *Ctx, rule string) {
 		})
 	}
 	c.check(n >= 5, rule, "EOF tests in the wrappers", "?", fmt.Sprintf("%d tests", n), fmt.Sprintf("only %d EOF tests found in the read/list wrappers", n))
+}
+
+// checkFilecmdMethodNames (C10.R8): FileCmder.Filecmd is documented for the methods Setstat, Rename, Rmdir, Mkdir, Link,
+// Symlink and Remove.  PosixRename and StatVFS belong to optional interfaces; without them PosixRename "is handled in
+// the same way as Rename".  On the branch of filecmd taken for such a method, Filecmd must not be reachable unless the
+// method has been rewritten to one it knows.
+func checkFilecmdMethodNames(c *Ctx, rule string) {
+	p := c.P
+	fn := p.Func("filecmd")
+	if fn == nil {
+		c.missing(rule, "filecmd")
+		return
+	}
+	known := map[string]bool{"Setstat": true, "Rename": true, "Rmdir": true, "Mkdir": true, "Link": true, "Symlink": true, "Remove": true}
+	isFilecmd := func(in ssa.Instruction) bool {
+		cc := callOf(in)
+		return cc != nil && cc.IsInvoke() && cc.Method.Name() == "Filecmd"
+	}
+	rewrites := func(in ssa.Instruction) bool {
+		st, ok := in.(*ssa.Store)
+		if !ok {
+			return false
+		}
+		if _, name, _, ok := fieldOf(st.Addr); !ok || name != "Method" {
+			return false
+		}
+		s, ok := constString(st.Val)
+		return ok && known[s]
+	}
+	n := 0
+	for _, b := range fn.Blocks {
+		iff, ok := b.Instrs[len(b.Instrs)-1].(*ssa.If)
+		if !ok {
+			continue
+		}
+		cmp, ok := iff.Cond.(*ssa.BinOp)
+		if !ok || cmp.Op != token.EQL {
+			continue
+		}
+		s, ok := constString(cmp.Y)
+		if !ok || known[s] {
+			continue
+		}
+		n++
+		leaks := reachFromBlock(b.Succs[0], isFilecmd, rewrites)
+		c.check(!leaks, rule, "Filecmd is not called with method "+s, p.Pos(iff.Pos()), "served by the optional interface, refused, or rewritten to a method Filecmd knows",
+			"a "+s+" request can reach FileCmder.Filecmd with Method == \""+s+"\", which the interface does not define: a handler without the optional interface answers \"unsupported\" (for PosixRename the documentation promises the behaviour of Rename)")
+	}
+	c.check(n >= 2, rule, "methods of optional interfaces in filecmd", p.Pos(fn.Pos()), fmt.Sprintf("%d branches", n), fmt.Sprintf("only %d such branches found (PosixRename, StatVFS expected)", n))
 }
